@@ -104,7 +104,7 @@ RECORD_NO_INLINE = (B + '.collect_data_block', B + '._make_header', B + '._heade
                     B + '._header_add_from_input_header', B + '._header_populate_configuration')
 
 
-def agree_ref(ctx, fi, ref_src, title, what=('return', 'heap', 'substores'), rule='AGREE', **runkw):
+def agree_ref(ctx, fi, ref_src, title, what=('return', 'heap', 'substores'), rule='AGREE', skip_attrs=(), **runkw):
     """Compare a function with a reference transcription of the property's definition evaluated by
     the same interpreter: return value, final values of self attributes, and subscript stores
     (buffer fills) pairwise in program order."""
@@ -117,11 +117,24 @@ def agree_ref(ctx, fi, ref_src, title, what=('return', 'heap', 'substores'), rul
     if 'heap' in what:
         keys = sorted({k for k in list(I.heap) + list(IR.heap) if k[0] == sym('self').key})
         for k in keys:
+            if k[1] in skip_attrs:
+                continue
             a = I.heap.get(k, T.mk_attr(sym('self'), k[1]))
             b = IR.heap.get(k, T.mk_attr(sym('self'), k[1]))
             st = [e for e in I.events if e.kind == 'store' and e.data.get('target') == 'attr' and e.data.get('name') == k[1]]
             ctx.formula(rule, f'{title}: self.{k[1]} at exit == reference definition', fi, a, b,
                         node=(st[-1].node if st else fi.node), construct=f'self.{k[1]} at exit')
+    if 'raises' in what:
+        ra = [e for e in I.events if e.kind == 'raise' and e.func.short == fi.short]
+        rb = [e for e in IR.events if e.kind == 'raise']
+        if len(ra) != len(rb):
+            ctx.ob(rule, f'{title}: same rejecting paths (raise statements) as the reference', fi, False,
+                   {'code': [(e.text()[:60], pretty(e.cond())[:200]) for e in ra],
+                    'reference': [(e.text()[:60], pretty(e.cond())[:200]) for e in rb]}, node=fi.node, construct='raise paths')
+        else:
+            for ea, eb in zip(ra, rb):
+                ctx.formula(rule, f'{title}: condition of the rejecting path == reference', fi, ea.cond(), eb.cond(),
+                            node=ea.node, construct=ea.text()[:80] + ' [guard]')
     if 'substores' in what:
         sa = [e for e in I.events if e.kind == 'store' and e.data.get('target') == 'sub' and e.func.short == fi.short]
         sb = [e for e in IR.events if e.kind == 'store' and e.data.get('target') == 'sub']
